@@ -286,10 +286,27 @@ def pool_codec(ctx):
     Sg = Sym(prog, g)
     gops = binops(g, Sg)
     ok = len([o for o in gops if o[0] == "Shr" and o[1][1] == "c:16"]) == 1 and len([o for o in gops if o[0] == "BitAnd" and o[1][1] == "c:65535"]) == 1 and \
-        len([o for o in gops if o[0] == "Gt" and "65535" in o[1][1]]) == 1
+        len([o for o in gops if (o[0] == "Gt" and "65535" in o[1][1]) or (o[0] == "Lt" and "65535" in o[1][0]) or (o[0] == "Ge" and "65536" in o[1][1]) or (o[0] == "Le" and "65536" in o[1][0])]) == 1
     ctx.check(ok, R, "writer's long-string escape", "len > 0xffff => 0, len >> 16; then len & 0xffff", "write_pool's long-string escape does not mirror the reader's split (>> 16 / & 0xffff / > 0xffff)", g.loc(), fn=g.name)
     setbit = [o for o in gops if o[0] == "BitOr" and "c:%d" % bit in o[1]]
     ok = len(setbit) == 1 and has_fact(Sg, setbit[0][2], r"^\*p1\.long_string_refs$", True)
+    if not setbit:
+        # `let flag = if self.long_string_refs { BIT } else { 0 }; header = id | flag`: the OR-ed local is BIT exactly under the flag and 0 otherwise
+        for o in gops:
+            if o[0] != "BitOr":
+                continue
+            for x in o[1]:
+                mloc = re.fullmatch(r"_(\d+)", x)
+                if not mloc:
+                    continue
+                vals = {}
+                for (db, di, kind, payload) in Sg.du.whole_defs(int(mloc.group(1))):
+                    if kind == "stmt" and payload["rhs"]["rv"] == "use" and payload["rhs"]["ops"][0].get("k") == "const":
+                        fl = [tr for (e, tr, gg) in Sg.bool_facts_at(db) if re.fullmatch(r"\*p1\.long_string_refs", e)]
+                        vals[payload["rhs"]["ops"][0].get("int")] = fl[-1] if fl else None
+                    else:
+                        vals["?"] = None
+                ok = vals == {bit: True, 0: False}
     ctx.check(ok, R, "write_pool sets the long-refs bit under long_string_refs", "", "write_pool does not OR LONG_STRING_REFS_BIT into the header exactly when long_string_refs", g.loc(), fn=g.name)
     # order of the words written per entry: [0, hi]? lo, refcount ; header first
     ws = [(b, args) for b, n, args, t in symcalls(prog, g, Sg) if io_width(t)]
@@ -308,8 +325,9 @@ def pool_codec(ctx):
               "write_pool takes the header's code page id from %s, not from self.codepage" % hdr, g.loc(), fn=g.name)
     bd = prog.fn(SP + "StringPoolBuilder::build_from_data")
     Sb = Sym(prog, bd)
-    dec = [args for b, n, args, t in symcalls(prog, bd, Sb) if n.endswith("CodePage::decode")]
-    ctx.check(len(dec) == 1 and dec[0][0] == "&p1.codepage", R, "pool strings are decoded with the header's code page", str([a[0] for a in dec]),
+    from ..lib import unit_calls, nz
+    dec = [args for b, n, args, t, L in unit_calls(prog, bd, Sb) if n.endswith("CodePage::decode")]
+    ctx.check(len(dec) == 1 and nz(dec[0][0]) == "p1.codepage", R, "pool strings are decoded with the header's code page", str([a[0] for a in dec]),
               "build_from_data decodes with %s" % [a[0] for a in dec], bd.loc(), fn=bd.name)
     fid = [args for b, n, args, t in symcalls(prog, f, S) if n.endswith("CodePage::from_id")]
     ctx.check(len(fid) == 1 and "BitAnd (Not c:%d)" % bit in fid[0][0], R, "header code page id is looked up after clearing the flag bit", "", "read_from_pool looks up %s" % [a[0][:80] for a in fid], f.loc(), fn=f.name)
@@ -319,18 +337,19 @@ def pool_codec(ctx):
                  "the very encoding write_data emits")
     d = prog.fn(SP + "StringPool::write_data")
     Sd = Sym(prog, d)
-    enc_p = [args for b, n, args, t in symcalls(prog, g, Sg) if n.endswith("CodePage::encode")]
-    enc_d = [args for b, n, args, t in symcalls(prog, d, Sd) if n.endswith("CodePage::encode")]
-    it_p = [args for b, n, args, t in symcalls(prog, g, Sg) if n.endswith("<impl [T]>::iter")]
-    it_d = [args for b, n, args, t in symcalls(prog, d, Sd) if n.endswith("<impl [T]>::iter")]
-    ok = len(enc_p) == 1 and len(enc_d) == 1 and enc_p[0][0] == enc_d[0][0] == "&*p1.codepage" and len(it_p) == 1 and len(it_d) == 1 and \
+    ucg, ucd = unit_calls(prog, g, Sg), unit_calls(prog, d, Sd)
+    enc_p = [args for b, n, args, t, L in ucg if n.endswith("CodePage::encode")]
+    enc_d = [args for b, n, args, t, L in ucd if n.endswith("CodePage::encode")]
+    it_p = [args for b, n, args, t, L in ucg if n.endswith("<impl [T]>::iter") and L is None]
+    it_d = [args for b, n, args, t, L in ucd if n.endswith("<impl [T]>::iter") and L is None]
+    ok = len(enc_p) == 1 and len(enc_d) == 1 and nz(enc_p[0][0]) == nz(enc_d[0][0]) == "p1.codepage" and len(it_p) == 1 and len(it_d) == 1 and \
         "p1.strings" in it_p[0][0] and "p1.strings" in it_d[0][0]
     ctx.check(ok, R2, "same strings, same code page", "", "write_pool and write_data do not iterate self.strings / encode with self.codepage alike: encode %s vs %s, iter %s vs %s" % (enc_p, enc_d, it_p, it_d), g.loc(), fn=g.name)
     filt = [n for b, n, args, t in symcalls(prog, g, Sg) + symcalls(prog, d, Sd) if re.search(r"Iterator::(filter|skip|take|step_by|rev|filter_map|skip_while|take_while)$", n)]
     ctx.check(not filt, R2, "no filtering adaptor", "", "pool writers use %s: the two streams can get out of step" % filt, g.loc(), fn=g.name)
-    ln = [args for b, n, args, t in symcalls(prog, g, Sg) if n.endswith("Vec::<T, A>::len")]
+    ln = [args for b, n, args, t, L in ucg if n.endswith("Vec::<T, A>::len")]
     ctx.check(len(ln) == 1 and "CodePage::encode" in ln[0][0], R2, "length word = encoded length", str(ln), "write_pool measures %s instead of the encoded bytes" % ln, g.loc(), fn=g.name)
-    wa = [args for b, n, args, t in symcalls(prog, d, Sd) if n == "std::io::Write::write_all"]
+    wa = [args for b, n, args, t, L in ucd if n == "std::io::Write::write_all"]
     ctx.check(len(wa) == 1 and "CodePage::encode" in wa[0][1], R2, "write_data emits the encoded bytes", str(wa), "write_data writes %s" % wa, d.loc(), fn=d.name)
 
 
@@ -373,6 +392,23 @@ def pool_load(ctx, rule="POOL-LOAD"):
     rd = {b for b, t in f.calls() if (t.get("callee") or "").endswith("Read::read_exact")}
     ps = {b for b, t in f.calls() if (t.get("callee") or "").endswith("Vec::<T, A>::push") and "String" in (t.get("written") or "") + f.locals[t["args"][0]["pl"]["l"]]}
     body = [(h, bl) for h, bl in loops.items() if nx and nx[0][0] in bl]
+    if not nx:
+        # lengths_and_refcounts.into_iter().map(|(len, rc)| { read_exact(len)?; Ok((decode(..), rc)) }).collect::<io::Result<Vec<_>>>()
+        from ..lib import lifted_closures
+        for L in lifted_closures(prog, f, S):
+            if not (L.param and "lengths_and_refcounts" in L.param and L.call_block is not None and cname(prog, f.blocks[L.call_block]["term"]).endswith("Iterator::map")):
+                continue
+            c = L.fn
+            crd = {b for b, t in c.calls() if (t.get("callee") or "").endswith("Read::read_exact")}
+            resid = {b for b, t in c.calls() if (t.get("callee") or "").endswith("from_residual")}
+            skip = set(c.returns()) & cfg.reachable(c, 0, avoid=crd | resid)
+            chain = " ".join(n for b, n, a, t in symcalls(prog, f, S))
+            straight = not re.search(r"Iterator::(filter|filter_map|flat_map|skip|take|step_by|skip_while|take_while|rev)\b", chain)
+            dec = [L.val(a) for b, t in c.calls() if cname(prog, t).endswith("CodePage::decode") for a in t["args"][:1]]
+            ctx.check(bool(crd) and not skip, rule, "every entry's bytes are consumed", "", "the per-entry closure of build_from_data can succeed without read_exact", f.loc(), fn=f.name, key=rule + "|read")
+            ctx.check(straight and bool(dec), rule, "every entry keeps its slot", "map over all entries, collected", "build_from_data filters or reorders the entries between the pool stream and the "
+                      "collected vector (%s)" % chain[-120:], f.loc(), fn=f.name, key=rule + "|slot")
+            return
     if not ctx.check(len(nx) == 1 and body and rd and ps, rule, "loop over the pool entries", "", "build_from_data has no loop over lengths_and_refcounts with a read_exact and a push "
                      "(next %d, read_exact %d, push %d)" % (len(nx), len(rd), len(ps)), f.loc(), fn=f.name, key=rule + "|anchor"):
         return
